@@ -156,3 +156,50 @@ def run(prop: str, ctx: Context) -> Tuple[int, List[Dict]]:
             print(f"SEEDED-CHANGE-MISSED property={prop} seed={sid} status={status} {err[:120]}")
             rc = 2
     return rc, rows
+
+
+REFACTORS_DIR = os.path.join(VERIF_DIR, "refactors")
+
+
+def refactors() -> List[Dict]:
+    out = []
+    if not os.path.isdir(REFACTORS_DIR):
+        return out
+    for name in sorted(os.listdir(REFACTORS_DIR)):
+        d = os.path.join(REFACTORS_DIR, name)
+        mp, pp = os.path.join(d, "meta.json"), os.path.join(d, "patch.diff")
+        if os.path.isfile(mp) and os.path.isfile(pp):
+            meta = json.load(open(mp))
+            meta["id"] = name
+            meta["patch_text"] = open(pp).read()
+            out.append(meta)
+    return out
+
+
+def _rjob(args):
+    prop, root, rid, text = args
+    ov = apply_patch(root, text)
+    if ov is None:
+        return rid, "stale (context no longer matches the tree)", [], ""
+    status, keys, err = run_on_variant(prop, root, ov)
+    return rid, status, keys[:3], err
+
+
+def run_refactors(prop: str, ctx: Context) -> Tuple[int, List[Dict]]:
+    """Independent behaviour-preserving refactorings written for this property must leave its rules silent."""
+    from concurrent.futures import ProcessPoolExecutor
+    jobs = [(prop, ctx.repo.root, r["id"], r["patch_text"]) for r in refactors() if r.get("property") == prop and r.get("keep_silent", True)]
+    rows, rc = [], 0
+    if not jobs:
+        return rc, rows
+    with ProcessPoolExecutor(max_workers=min(16, len(jobs))) as ex:
+        results = list(ex.map(_rjob, jobs))
+    for rid, status, keys, err in results:
+        rows.append({"refactoring": rid, "status": status, "keys": keys, "error": err[:160]})
+        if status == "violations":
+            print(f"FALSE-ALARM-ON-REFACTORING property={prop} refactoring={rid} {keys}")
+            rc = 2
+        elif status == "analysis-error":
+            print(f"CANNOT-DECIDE-REFACTORING property={prop} refactoring={rid} {err[:120]}")
+            rc = 2
+    return rc, rows
